@@ -64,13 +64,16 @@ def generate(rng, tier):
         elif k < 0.65:
             s = rng.choice(list(state.values()))
             s2 = dict(s)
-            ch = rng.choice(["port", "props", "addrs", "server", "type"])
+            ch = rng.choice(["port", "props", "addrs", "server", "type", "ttl"])
             if ch == "type":
                 # the same instance moves between its base type and a subtype-qualified type
                 if "._sub." in s["type"]:
                     s2["type"] = s["type"].split("._sub.", 1)[1]
                 else:
                     s2["type"] = "_printer._sub." + s["type"]
+            elif ch == "ttl":
+                s2["host_ttl"] = 60 if s.get("host_ttl", 120) != 60 else 240
+                s2["other_ttl"] = 1200 if s.get("other_ttl", 4500) != 1200 else 2000
             elif ch == "port":
                 s2["port"] = s["port"] + 1
             elif ch == "props":
@@ -462,6 +465,15 @@ def _multicast_state_clause(w, drv, stats, out):
             mutated.add(op["svc"]["name"].lower())
             mutated.add(SvcRecords(op["svc"]).server.lower())
     evs.sort(key=lambda x: (x[0], x[1]))
+    # a record that several services share (the address of a common host name) with different TTLs has no single
+    # configured TTL: the TTL clause leaves it alone
+    ttl_by_owner = {}
+    for _, _, kind, arg in evs:
+        if kind in ("reg", "upd"):
+            sv0 = SvcRecords(arg)
+            for r0 in sv0.all():
+                ttl_by_owner.setdefault(r0.ident(), {}).setdefault(sv0.name.lower(), set()).add(r0.ttl)
+    mixed = {i for i, owners in ttl_by_owner.items() if len(owners) > 1 and len(set().union(*owners.values())) > 1}
     times = [x[0] for x in evs]
     reg = ModelRegistry()
     k = 0
@@ -478,12 +490,23 @@ def _multicast_state_clause(w, drv, stats, out):
         if any(abs(tx.t - t) < 2e-6 for t in times):
             continue  # sent in the same instant as a change: either order is fine
         own = {i for sv in reg.s.values() for i in sv.own_idents()}
+        own_ttl = {}
+        for sv in reg.s.values():
+            for r0 in sv.all():
+                own_ttl.setdefault(r0.ident(), set()).add(r0.ttl)
         types = reg.types()
         for r in tx.msg.records():
-            if r.ttl == 0 or r.type == wire.T_NSEC or r.name.lower() in mutated:
+            if r.ttl == 0 or r.type == wire.T_NSEC or r.name.lower() in mutated or \
+                    (r.type == wire.T_PTR and r.rdata.lower() in mutated):
                 continue
             if r.type == wire.T_PTR and r.name.lower() == ENUM and r.rdata.lower() in types:
                 continue
+            if r.ident() in own and r.ident() not in mixed and r.ttl not in own_ttl.get(r.ident(), {r.ttl}):
+                out.add("C03.stale-multicast-after-change", f"{r!r} multicast at {w.rel(tx.t):.6f} carries TTL {r.ttl}, the "
+                        f"registered service(s) configure {sorted(own_ttl[r.ident()])}; last changes: "
+                        f"{[(round(w.rel(t), 3), kd, a if isinstance(a, str) else a['name']) for t, _, kd, a in evs[max(0, k - 2):k]]}",
+                        rtype=r.type, ttl_only=True)
+                return
             if r.ident() not in own:
                 stats["stale_multicast"] = stats.get("stale_multicast", 0) + 1
                 out.add("C03.stale-multicast-after-change", f"{r!r} multicast at {w.rel(tx.t):.6f} is not a record of any "
